@@ -180,7 +180,7 @@ def coq_check(prop, src_targets=()):
             if b.startswith("Closed under"):
                 res.assumptions[name] = []
             else:
-                ax = re.findall(r"^([A-Za-z0-9_.']+)\s*:", b, re.M)
+                ax = re.findall(r"^([A-Za-z0-9_.']+)\s*:", b.split("\n", 1)[1] if "\n" in b else "", re.M)
                 res.assumptions[name] = ax
                 for a in ax:
                     if a not in ALLOWED_AXIOMS:
